@@ -5,14 +5,22 @@ import common, dsutil
 from common import quiet
 
 PROP = 'C14'
-LEAN_MODULES = ['XyzProofs.Props.C14', 'XyzProofs.Refine.Reap']
+LEAN_MODULES = ['XyzProofs.Props.C14', 'XyzProofs.Refine.Reap', 'XyzProofs.Refine.StoreIO', 'XyzProofs.Props.C14Io']
 THEOREMS = ['StoreIO.c14_ext_idempotent', 'StoreIO.c14_same_path', 'StoreIO.c14_path_rule', 'StoreIO.c14_ext_table',
             'StoreIO.c14_roundtrip_modulo_attrs', 'StoreIO.c14_attr_rule', 'StoreIO.tagCodec_inverse',
-            'Refine.autoAddExt_refines']
+            'Refine.autoAddExt_refines',
+            # the bodies of save_ds / load_ds / save_df / load_df as translated (Props/C14Io.lean)
+            'StoreIO.saveDs_spec', 'StoreIO.saveDs_attrs_refines', 'StoreIO.saveDs_keeps_numbers', 'StoreIO.saveDs_writers',
+            'StoreIO.loadDs_spec', 'StoreIO.c14_load_create_new', 'StoreIO.c14_load_existing_is_read',
+            'StoreIO.c14_save_load_same_path', 'StoreIO.c14_translated_paths', 'StoreIO.c14_load_value_error',
+            'StoreIO.c14_load_and_close', 'StoreIO.loadDs_readers', 'StoreIO.c14_df_tables',
+            # save_merge_ds / Harvester.delete_ds as translated (state skeletons, Refine/StoreIO.lean)
+            'Harvest.saveMergeDs_eq_spec', 'Harvest.saveMergeDs_refines', 'Harvest.saveMergeDs_default_engine',
+            'Harvest.hvDeleteDs_refines', 'Harvest.hvDeleteDs_backup']
 ANCHORS = ['engineExt', 'extRuleSubstring', 'extAppendCount', 'saveDsExtends', 'loadDsExtends', 'attrExempt',
            'attrNoneStr', 'attrTrueStr', 'attrFalseStr', 'deleteRemoveExtended', 'saveMergeExistsExtended',
            'saveMergeLoadsWithEngine', 'saveMergeTrue', 'saveMergeFalse', 'saveMergeNone',
-           'autoAddExt']
+           'autoAddExt', 'saveDs', 'loadDs', 'saveDf', 'loadDf', 'saveMergeDs', 'hvDeleteDs']
 RULE = ("a case is a dataset with 0-4 dimensions (sizes 1-3; int, float, str labels or no coordinate), 1-3 variables of "
         "kind int / float / complex / bool / str over any subset of the dimensions (0-d included), NaN patterns in float "
         "and complex data, attributes None / True / False / str / int / float, an engine (h5netcdf, joblib), a file name "
